@@ -114,6 +114,29 @@ CLAIMED = {
              "own stack machine; additional symbols fortls emits are not judged; in-memory disk",
         ref="DESIGN.md section 5 C04", rx=True,
     ),
+    "C13": dict(
+        text="(RX, unbounded) every pattern of FRegex and every literal re.compile in the package as a z3 regular language over all ASCII "
+             "strings: letter case never matters; each statement pattern accepts every spacing of its reference statement language; "
+             "comment / continuation-start / preprocessor line languages are disjoint and complete; splitlines on a free symbolic string. "
+             "(L) generated programs under every single positional transformation (blank line, comment line, trailing comment, ';' join) at "
+             "every statement x 4 case modes x LF|CRLF|CR x trailing blanks, and every statement split at every token boundary (with/without "
+             "leading '&', with blank / whitespace-only / comment lines between the parts): scopes (kind, name, parent, start and END line "
+             "under that layout), declarations, resolved bindings (type-bound links, EXTENDS, generic members, submodule ancestor) and error "
+             "diagnostics equal the generator's model.",
+        note="layouts are enumerated concretely below solver-chosen indices; programs come from one structural generator; ASCII only",
+        ref="DESIGN.md section 5 C13", rx=True,
+    ),
+    "C14": dict(
+        text="(RX, unbounded) FIXED_COMMENT / FIXED_CONT / LINE_LABEL equal their reference line languages; the per-line free-form "
+             "evidence used by detect_fixed_format never occurs on a fixed-form statement line. (X) the generated programs rendered in "
+             "fixed form - 6 comment characters before every statement, blank lines, column-6 continuation (5 markers) at every token "
+             "boundary with comment/blank lines in between, labelled and shared-label DO termination - are classified fixed and indexed "
+             "like the model; free-form renderings (indent 0..4, 4 case modes) and 8 declaration-free programs from column 1 are never "
+             "classified fixed.",
+        note="texts valid in both source forms are outside (every column-1 line starts with c/d/!/*); a fixed-form comment line that "
+             "begins with a declaration keyword (CHARACTER/COMPLEX/CLASS/DOUBLE...) is a recorded known finding; enumeration below solver-chosen indices",
+        ref="DESIGN.md section 5 C14", rx=True,
+    ),
 }
 
 NOT_APPLICABLE = {
